@@ -267,6 +267,75 @@ theorem run_sound_scalar_comments (cfg : Cfg) (hcm : cfg.comments = true) (bs : 
         (repeat' split at hns) <;> cases hns <;> omega
       simp [parseValue, h123, h91, h34, e1.1, e1.2.1, e1.2.2, hp]
 
+/-! ### what `ws` with comments returns is a suffix (for carrying `NoU` along) -/
+
+theorem skipLine_suffix : ∀ s : Bytes, ∃ p, s = p ++ skipLine s
+  | [] => ⟨[], rfl⟩
+  | c :: cs => by
+    unfold skipLine
+    split
+    · exact ⟨[], rfl⟩
+    · obtain ⟨p, hp⟩ := skipLine_suffix cs
+      exact ⟨c :: p, by rw [List.cons_append, ← hp]⟩
+
+theorem skipBlock_suffix : ∀ (n : Nat) (s r : Bytes), s.length ≤ n → skipBlock s = some r → ∃ p, s = p ++ r
+  | _, [], _, _, h => by simp [skipBlock] at h
+  | _, [_], _, _, h => by simp [skipBlock] at h
+  | 0, _ :: _ :: _, _, hl, _ => by simp at hl
+  | n + 1, a :: c :: cs, r, hl, h => by
+    rw [skipBlock_cons2] at h
+    by_cases hh : a = 42 ∧ c = 47
+    · simp only [hh, and_self, if_true, Option.some.injEq] at h
+      subst h; exact ⟨[a, c], rfl⟩
+    · rw [if_neg hh] at h
+      obtain ⟨p, hp⟩ := skipBlock_suffix n (c :: cs) r (by simp only [List.length_cons] at hl ⊢; omega) h
+      exact ⟨a :: p, by rw [List.cons_append, ← hp]⟩
+
+theorem skipWs_suffix : ∀ (n : Nat) (a w : Bytes), skipWs true n a = some w → ∃ p, a = p ++ w
+  | 0, a, w, h => by simp [skipWs] at h; exact ⟨[], by rw [h]; rfl⟩
+  | n + 1, [], w, h => by simp [skipWs] at h; exact ⟨[], by rw [h]; rfl⟩
+  | n + 1, c :: cs, w, h => by
+    by_cases hws : isWs c = true
+    · simp only [skipWs, hws, if_true] at h
+      obtain ⟨p, hp⟩ := skipWs_suffix n cs w h
+      exact ⟨c :: p, by rw [List.cons_append, ← hp]⟩
+    · by_cases h47 : c = 47
+      · subst h47
+        cases cs with
+        | nil => simp [skipWs, hws] at h; exact ⟨[], by rw [← h]; rfl⟩
+        | cons d ds =>
+          by_cases hd47 : d = 47
+          · subst hd47
+            simp only [skipWs, hws, Bool.true_and, decide_true, if_true, if_false, Bool.false_eq_true] at h
+            obtain ⟨p, hp⟩ := skipWs_suffix n (skipLine ds) w h
+            obtain ⟨q, hq⟩ := skipLine_suffix ds
+            exact ⟨47 :: 47 :: (q ++ p), by rw [hp] at hq; simp only [List.cons_append, List.append_assoc]; rw [← hq]⟩
+          · by_cases hd42 : d = 42
+            · subst hd42
+              simp only [skipWs, hws, Bool.true_and, decide_true, if_true, if_false, Bool.false_eq_true] at h
+              cases hb : skipBlock ds with
+              | none => simp [hb] at h
+              | some r =>
+                simp only [hb] at h
+                obtain ⟨p, hp⟩ := skipWs_suffix n r w h
+                obtain ⟨q, hq⟩ := skipBlock_suffix _ ds r (Nat.le_refl _) hb
+                exact ⟨47 :: 42 :: (q ++ p), by rw [hp] at hq; simp only [List.cons_append, List.append_assoc]; rw [← hq]⟩
+            · have : skipWs true (n + 1) (47 :: d :: ds) = some (47 :: d :: ds) := by
+                simp only [skipWs, hws, Bool.true_and, decide_true, if_true, if_false, Bool.false_eq_true]
+                split
+                · rename_i heq; cases heq; exact absurd rfl hd47
+                · rename_i heq; cases heq; exact absurd rfl hd42
+                · rfl
+              rw [this] at h
+              simp only [Option.some.injEq] at h
+              exact ⟨[], by rw [← h]; rfl⟩
+      · simp [skipWs, hws, h47] at h
+        exact ⟨[], by rw [← h]; rfl⟩
+
+theorem NoU_suffix (p s : Bytes) (h : NoU (p ++ s)) : NoU s := by
+  intro pre post e
+  exact h (p ++ pre) post (by rw [e, List.append_assoc])
+
 end JsonParser
 end Model
 end JV
